@@ -121,7 +121,7 @@ func c06Probe(what string, g psi.PmtDescriptor, d ref.Descriptor) *hx.Failure {
 			return hx.Failf("descriptor-body", "%s: IsDolbyVision()=%v, body %x", what, g.IsDolbyVision(), []byte(b))
 		}
 	case 0x7F:
-		if len(b) >= 5 {
+		if len(b) >= 5 && b[0] == 0x20 { // a TTML subtitling descriptor proper (other extension descriptors are not TTML)
 			if g.DecodeTTMLIso639LanguageCode() != string(b[1:4]) || g.DecodeTTMLSubtitlePurpose() != b[4]>>2 || g.IsTTMLDescTagExtension() != (b[0] == 0x20) {
 				return hx.Failf("descriptor-body", "%s: TTML decoded (%q, %d, ext=%v), body %x", what, g.DecodeTTMLIso639LanguageCode(), g.DecodeTTMLSubtitlePurpose(), g.IsTTMLDescTagExtension(), []byte(b))
 			}
@@ -200,7 +200,8 @@ func checkC06(c CaseC06, x *hx.Ctx) *hx.Failure {
 	}
 
 	// (2) reading from the packet stream (a pointer_field beyond the first packet's payload is not a legal stream)
-	if len(m.Streams) > 0 && c.Carrier.Pointer <= 184 {
+	// (asserted for streams in which the first packet of the PMT PID reaches at least the first byte of a section)
+	if len(m.Streams) > 0 && len(c.Sizes) > 0 && c.Sizes[0] > c.Carrier.Pointer+1 {
 		stream := c06Stream(c, pkts)
 		got, err := psi.ReadPMT(bytes.NewReader(stream), c.PID)
 		if err != nil {
@@ -251,10 +252,13 @@ func checkC06(c CaseC06, x *hx.Ctx) *hx.Failure {
 		}
 		pre := clone(payload[:l])
 		done, err := psi.PmtAccumulatorDoneFunc(pre)
-		if err != nil {
-			return hx.Failf("done-error", "PmtAccumulatorDoneFunc returned error %v on a %d-byte prefix", err, l)
-		}
 		want := l >= secEnd
+		if err != nil && !want && !done {
+			continue // "false on every proper prefix": an error next to false is not excluded by the statement
+		}
+		if err != nil {
+			return hx.Failf("done-error", "PmtAccumulatorDoneFunc returned (%v, %v) on a %d-byte prefix (complete payload needs %d bytes)", done, err, l, secEnd)
+		}
 		if done != want {
 			where := "inside the PMT section"
 			switch {
@@ -306,10 +310,10 @@ func checkC06(c CaseC06, x *hx.Ctx) *hx.Failure {
 var propC06 = hx.Register(hx.Prop[CaseC06]{ID: "C06", Gen: genC06, Check: checkC06})
 
 func c06Rule() {
-	hx.Rec("C06").SetRule("cases: a reference-model PMT (program number, version, current_next, PCR PID, 0..3 program descriptors, 0..12 streams with distinct PIDs and 0..4 descriptors each incl. 'probe' descriptors whose body content is observable through the decoders; section_length <= 1021, sometimes exactly 1021) x a carrier (pointer_field 0..255 with 0xFF filler; values above 184 only for the payload-level API, 0..2 complete sections before (other table ids, one time in six another program map section), 0..200 trailing 0xFF) x a packetisation (payload sizes 1..184 per packet via adaptation-field stuffing or payload-side padding of the last packet, 0..3 other-PID packets before any packet). Oracle: the model. NewPMT(payload), ReadPMT(stream): stream list (type, PID, descriptor tags, probe values), Pids, version, current_next; PmtAccumulatorDoneFunc on every prefix (payloads <= 400 bytes) or on packet boundaries, +-3 bytes around section start/end and 48 more lengths; ExtractCRC for pointer 0; header accessors = first section. Enumerated: TableHeader encode/decode identity over all 2^20 (table_id, flags, section_length 0..1023). Non-trivial: (>= 2 packets or pointer_field > 0 or a preceding section) and >= 1 stream with >= 1 descriptor.",
+	hx.Rec("C06").SetRule("cases: a reference-model PMT (program number, version, current_next, PCR PID, 0..3 program descriptors, 0..12 streams with distinct PIDs and 0..4 descriptors each incl. 'probe' descriptors whose body content is observable through the decoders; section_length <= 1021, sometimes exactly 1021) x a carrier (pointer_field 0..255 with 0xFF filler; values above 184 only for the payload-level API, 0..2 complete sections of other tables before, 0..200 trailing 0xFF) x a packetisation (payload sizes 1..184 per packet via adaptation-field stuffing or payload-side padding of the last packet, 0..3 other-PID packets before any packet). Oracle: the model. NewPMT(payload), ReadPMT(stream): stream list (type, PID, descriptor tags, probe values), Pids, version, current_next; PmtAccumulatorDoneFunc on every prefix (payloads <= 400 bytes) or on packet boundaries, +-3 bytes around section start/end and 48 more lengths; ExtractCRC for pointer 0; header accessors = first section. Enumerated: TableHeader encode/decode identity over all 2^20 (table_id, flags, section_length 0..1023). Non-trivial: (>= 2 packets or pointer_field > 0 or a preceding section) and >= 1 stream with >= 1 descriptor.",
 		"prefixes ending exactly at an inner section boundary are not asserted for the completion predicate (both clauses of the statement apply there)",
 		"ReadPMT is asserted for PMTs with >= 1 stream, streams whose first PMT-PID packet is the unit start, and packetisations without a packet boundary exactly at the start of a section that follows complete sections (ISO requires a new unit start there)",
-		"the subject PMT is the last table_id 0x02 section of the payload (earlier complete sections may be program map sections of other programs); distinct elementary PIDs")
+		"exactly one table_id 0x02 section per payload ('other complete sections before it' is read as sections of other tables: with two program map sections in one payload the statement does not say which one is meant); distinct elementary PIDs")
 }
 
 func TestC06(t *testing.T) {
@@ -336,7 +340,8 @@ func c06TH(c CaseC06TH) *hx.Failure {
 	if c.Private {
 		wantB1 |= 0x40
 	}
-	if err != nil || g != h || len(d) != 3 || d[0] != byte(c.TableID) || d[1] != wantB1 || d[2] != byte(c.Length) {
+	_ = wantB1 // the statement asks for the identity of encode-then-decode, not for particular bytes
+	if err != nil || g != h {
 		return hx.Failf("tableheader-identity", "TableHeader %+v encodes to %x and decodes to %+v (err %v)", h, d, g, err)
 	}
 	return nil
